@@ -259,3 +259,41 @@ pub fn expected_greeting(g: &RefGreeting) -> Result<LItem, String> {
         as_server: g.as_server == 1,
     })
 }
+
+/// Drive the real framed reader over hostile bytes without retaining items (memory oracle).
+/// Returns (items seen, error items seen, end description).
+pub fn framed_consume(bytes: &[u8], chunk: usize, eof: Option<ReadEnd>, max_items: usize) -> (usize, usize, String) {
+    let pipe = Pipe::new();
+    pipe.deposit(bytes);
+    if let Some(e) = eof {
+        pipe.end_after_all(e);
+    }
+    let mut fr = FramedReader::new(pipe.reader());
+    let waker = noop_waker();
+    let mut cx = Context::from_waker(&waker);
+    let mut items = 0usize;
+    let mut errors = 0usize;
+    loop {
+        pipe.deliver(chunk.max(1));
+        loop {
+            match Pin::new(&mut fr).poll_next(&mut cx) {
+                Poll::Ready(Some(Ok(_))) => {
+                    items += 1;
+                    if items >= max_items {
+                        return (items, errors, "max_items".into());
+                    }
+                }
+                Poll::Ready(Some(Err(e))) => {
+                    errors += 1;
+                    // sockets drop or report the connection on the first error
+                    return (items, errors, err_class(&format!("{:?}", e)));
+                }
+                Poll::Ready(None) => return (items, errors, "clean".into()),
+                Poll::Pending => break,
+            }
+        }
+        if pipe.undelivered() == 0 {
+            return (items, errors, "pending".into());
+        }
+    }
+}
